@@ -8,6 +8,8 @@ every database field list and every value assignment.  Helper lemmas: `ScyllaVer
 -/
 import ScyllaVerif.Proofs.Derive
 import ScyllaVerif.Proofs.DeriveFlatten
+import ScyllaVerif.Proofs.DeriveErrs
+import ScyllaVerif.Generated.DeriveC16
 
 namespace ScyllaVerif.Props.C16
 open ScyllaVerif.Derive
@@ -1810,6 +1812,195 @@ theorem tcRowOrdered_iff (d : Desc) (db : List Col) :
     simp only [if_true, reduceCtorEq, false_iff]
     rintro ⟨h, _⟩; exact hlen h
 
+/-! ### exact error kinds: ordered rows, and the missing-field case of the by-name type checks -/
+
+private theorem srOrdered_cons (sn : Bool) (f : Field) (v : Val) (fs : List (Field × Val)) (c : Col) (cs : List Col) :
+    srOrdered sn ((f, v) :: fs) (c :: cs) =
+      if !sn && c.name != f.col then .error .srColumnNameMismatch
+      else match serVal f v c.ty with
+        | none => .error .srColumnSerFailed
+        | some cell =>
+          match srOrdered sn fs cs with
+          | .error x => .error x
+          | .ok cells => .ok (cell :: cells) := by
+  rw [srOrdered]
+  rfl
+
+/-- a fitting prefix is passed over: the walk continues behind it and prepends the prefix's values -/
+theorem srOrdered_prefix (sn : Bool) (pre : List (Field × Val)) : ∀ (dpre : List Col) (fs : List (Field × Val))
+    (db : List Col), pre.length = dpre.length → (∀ pc ∈ pre.zip dpre, PairFits sn pc.1 pc.2) →
+    srOrdered sn (pre ++ fs) (dpre ++ db) =
+      match srOrdered sn fs db with
+      | .error x => .error x
+      | .ok cells => .ok (pre.map (·.2) ++ cells) := by
+  induction pre with
+  | nil =>
+    intro dpre fs db hlen _
+    have : dpre = [] := by cases dpre <;> simp_all
+    subst this
+    simp only [List.nil_append, List.map_nil]
+    cases srOrdered sn fs db <;> rfl
+  | cons p pre ih =>
+    intro dpre fs db hlen hfit
+    obtain ⟨f, v⟩ := p
+    cases dpre with
+    | nil => simp at hlen
+    | cons c cs =>
+      simp only [List.zip_cons_cons, List.forall_mem_cons] at hfit
+      obtain ⟨⟨hn, hv⟩, hrest⟩ := hfit
+      simp only [List.cons_append]
+      rw [srOrdered_cons]
+      have hb : (!sn && c.name != f.col) = false := by rcases hn with h | h <;> simp [h]
+      obtain ⟨cell, hcell⟩ := (serVal_isSome_iff f v c.ty).mpr hv
+      have := serVal_some hcell
+      subst this
+      simp only [hb, Bool.false_eq_true, if_false, hcell, ih cs fs db (by simpa using hlen) hrest, List.map_cons]
+      cases srOrdered sn fs db <;> rfl
+
+/-- the exact error of ordered row serialization: behind the longest fitting prefix, the FIRST offending
+position decides — no column left: `NoColumnWithName`; no field left: `ValueMissingForColumn`; another name
+(names checked): `ColumnNameMismatch`; right name but the value does not fit: `ColumnSerializationFailed` -/
+theorem srOrdered_error_kind (sn : Bool) (pre : List (Field × Val)) (dpre : List Col)
+    (hlen : pre.length = dpre.length) (hfit : ∀ pc ∈ pre.zip dpre, PairFits sn pc.1 pc.2) :
+    (∀ p fs, srOrdered sn (pre ++ p :: fs) dpre = .error .srNoColumnWithName) ∧
+    (∀ c db, srOrdered sn pre (dpre ++ c :: db) = .error .srValueMissingForColumn) ∧
+    (∀ p fs c db, sn = false → c.name ≠ p.1.col →
+      srOrdered sn (pre ++ p :: fs) (dpre ++ c :: db) = .error .srColumnNameMismatch) ∧
+    (∀ p fs c db, (sn = true ∨ c.name = p.1.col) → ¬ (p.2 = none ∨ p.1.ty = c.ty) →
+      srOrdered sn (pre ++ p :: fs) (dpre ++ c :: db) = .error .srColumnSerFailed) := by
+  refine ⟨?_, ?_, ?_, ?_⟩
+  · intro p fs
+    have := srOrdered_prefix sn pre dpre (p :: fs) [] hlen hfit
+    rw [List.append_nil] at this
+    rw [this]; rfl
+  · intro c db
+    have := srOrdered_prefix sn pre dpre [] (c :: db) hlen hfit
+    rw [List.append_nil] at this
+    rw [this]; rfl
+  · intro p fs c db hsn hne
+    rw [srOrdered_prefix sn pre dpre (p :: fs) (c :: db) hlen hfit]
+    obtain ⟨f, v⟩ := p
+    rw [srOrdered_cons]
+    have hb : (!sn && c.name != f.col) = true := by simp [hsn, hne]
+    simp [hb]
+  · intro p fs c db hn hv
+    rw [srOrdered_prefix sn pre dpre (p :: fs) (c :: db) hlen hfit]
+    obtain ⟨f, v⟩ := p
+    rw [srOrdered_cons]
+    have hb : (!sn && c.name != f.col) = false := by rcases hn with h | h <;> simp [h]
+    cases hs : serVal f v c.ty with
+    | none => simp [hb]
+    | some cell => exact absurd ((serVal_isSome_iff f v c.ty).mp ⟨_, hs⟩) hv
+
+/-- the exact error of the ordered row type check: a wrong number of columns is `WrongColumnCount` before
+anything else; otherwise, behind the longest matching prefix, a wrong name is `ColumnNameMismatch` and a right
+name with a wrong type `ColumnTypeCheckFailed` -/
+theorem tcRowOrdered_error_kind (d : Desc) (db : List Col) :
+    (db.length ≠ (d.fields.filter (fun f => !f.skip)).length → tcRowOrdered d db = .error .drWrongColumnCount) ∧
+    (∀ (pre : List Field) (dpre : List Col) f fs c cs,
+      d.fields.filter (fun f => !f.skip) = pre ++ f :: fs → db = dpre ++ c :: cs →
+      fs.length = cs.length → pre.length = dpre.length →
+      (∀ fc ∈ pre.zip dpre, (d.skipNameChecks = true ∨ fc.2.name = fc.1.col) ∧ fc.1.ty = fc.2.ty) →
+      (d.skipNameChecks = false → c.name ≠ f.col → tcRowOrdered d db = .error .drColumnNameMismatch) ∧
+      ((d.skipNameChecks = true ∨ c.name = f.col) → f.ty ≠ c.ty →
+        tcRowOrdered d db = .error .drColumnTypeCheckFailed)) := by
+  constructor
+  · intro h
+    unfold tcRowOrdered rowRequiredCount
+    have hb : (db.length != (d.fields.filter (fun f => !f.skip)).length) = true := by simp [h]
+    rw [hb]; rfl
+  · intro pre dpre f fs c cs hfs hdb hl1 hl2 hfit
+    have hwalk : ∀ (pre : List Field) (dpre : List Col), pre.length = dpre.length →
+        (∀ fc ∈ pre.zip dpre, (d.skipNameChecks = true ∨ fc.2.name = fc.1.col) ∧ fc.1.ty = fc.2.ty) →
+        drTcOrd d.skipNameChecks (pre ++ f :: fs) (dpre ++ c :: cs) =
+          drTcOrd d.skipNameChecks (f :: fs) (c :: cs) := by
+      intro pre
+      induction pre with
+      | nil => intro dpre hl _; have : dpre = [] := by cases dpre <;> simp_all
+               subst this; rfl
+      | cons g pre ih =>
+        intro dpre hl hf
+        cases dpre with
+        | nil => simp at hl
+        | cons e dpre =>
+          simp only [List.zip_cons_cons, List.forall_mem_cons] at hf
+          obtain ⟨⟨hn, ht⟩, hrest⟩ := hf
+          simp only [List.cons_append]
+          unfold drTcOrd
+          have hb : (!d.skipNameChecks && e.name != g.col) = false := by rcases hn with h | h <;> simp [h]
+          have hb2 : (g.ty != e.ty) = false := by simp [ht]
+          simp only [hb, hb2, Bool.false_eq_true, if_false]
+          exact ih dpre (by simpa using hl) hrest
+    have hcount : (db.length != (d.fields.filter (fun f => !f.skip)).length) = false := by
+      rw [hfs, hdb]; simp [hl1, hl2]
+    constructor
+    · intro hsn hne
+      unfold tcRowOrdered rowRequiredCount
+      rw [hcount, hfs, hdb]
+      simp only [Bool.false_eq_true, if_false, hwalk pre dpre hl2 hfit]
+      unfold drTcOrd
+      have hb : (!d.skipNameChecks && c.name != f.col) = true := by simp [hsn, hne]
+      simp [hb]
+    · intro hn hty
+      unfold tcRowOrdered rowRequiredCount
+      rw [hcount, hfs, hdb]
+      simp only [Bool.false_eq_true, if_false, hwalk pre dpre hl2 hfit]
+      unfold drTcOrd
+      have hb : (!d.skipNameChecks && c.name != f.col) = false := by rcases hn with h | h <;> simp [h]
+      have hb2 : (f.ty != c.ty) = true := by simp [hty]
+      simp [hb, hb2]
+
+/-- exact error of the by-name type checks when only a field is missing: every listed column acceptable and no
+bound column twice, but a required field absent ⇒ `ValuesMissingForUdtFields` (UDT) resp.
+`ValuesMissingForColumns` (row) -/
+theorem tcByName_missing_kind (d : Desc) (db : List Col) (hv : ValidNames (slots d.fields))
+    (hcols : ∀ c ∈ db, TcColAccepted d c) (hnd : (matchedNames (fieldFor (slots d.fields)) db).Nodup)
+    (f : Field) (hf : f ∈ d.fields) (hr : f.required = true) (hmiss : f.col ∉ names db) :
+    tcValueByName d db = .error .dvValuesMissing ∧
+    (RowFields d.fields → d.forbidExcess = true → tcRowByName d db = .error .drValuesMissing) := by
+  have hnot : tcValueByName d db ≠ .ok () := by
+    intro h
+    exact hmiss (((tcValueByName_accepts_iff d db hv).mp h).2.2 f hf hr)
+  have hval : tcValueByName d db = .error .dvValuesMissing := by
+    -- the loop succeeds (all columns acceptable), so only the final counter test can fail
+    have hinv : ∀ n e, lookupE n (tcEntries d.fields) = some e → e.visited = ([] : List String).contains n := by
+      intro n e h
+      rw [tcEntries_eq] at h
+      simpa using entries_unvisited _ e (lookupE_some h).2
+    have hcl := dvTcLoop_closed d.forbidExcess db (tcEntries d.fields) (requiredCount d.fields) [] hinv
+      (requiredCount_eq d.fields)
+    have hlook : fv (tcEntries d.fields) = fieldFor (slots d.fields) := by
+      funext n; rw [tcEntries_eq, fv_entries]
+    rw [hlook] at hcl
+    have hok : tcOkList d.forbidExcess (fieldFor (slots d.fields)) [] db = true := by
+      apply (tcOkList_iff d.forbidExcess (fieldFor (slots d.fields)) db []).mpr
+      refine ⟨?_, hnd⟩
+      intro c hc
+      have := hcols c hc
+      unfold TcColAccepted at this
+      cases hfc : fieldFor (slots d.fields) c.name with
+      | none => rw [hfc] at this; exact this
+      | some p => obtain ⟨g, w⟩ := p; rw [hfc] at this; exact ⟨this, by simp⟩
+    rw [hok] at hcl
+    simp only [if_true] at hcl
+    unfold tcValueByName at hnot ⊢
+    cases hloop : dvTcLoop d.forbidExcess db (tcEntries d.fields) (requiredCount d.fields) with
+    | error x => rw [hloop] at hcl; simp [okOpt] at hcl
+    | ok r =>
+      obtain ⟨es', rem⟩ := r
+      simp only [] at hnot ⊢
+      by_cases hpos : rem > 0
+      · simp [hpos]
+      · exfalso
+        apply hnot
+        rw [hloop]
+        simp [hpos]
+  refine ⟨hval, ?_⟩
+  intro hrow hforbid
+  rw [tcRowByName_eq d db hrow]
+  have : asUdt d = d := by unfold asUdt; cases d; simp_all
+  rw [this, hval]; rfl
+
 /-! ### ordered flavor, UDTs: the full `ordered_accepts_exactly` (greedy `allow_missing` rule) -/
 
 /-- a database name list is in the declared order: `m ++ rest` with `m` a subsequence of the declared names
@@ -2003,7 +2194,7 @@ theorem svOrdered_accepts_iff (forbid : Bool) (fs : List (Field × Val)) (db : L
 theorem svOrdered_cells (forbid : Bool) (fs : List (Field × Val)) : ∀ (db : List Col) (cells : List Cell),
     svOrdered false forbid fs db = .ok cells →
     ∀ (i : Nat) (cell : Cell), cells[i]? = some cell →
-      ∃ c p, db[i]? = some c ∧ p ∈ fs ∧ c.name = p.1.col ∧ cell = p.2 := by
+      ∃ c p, db[i]? = some c ∧ p ∈ fs ∧ c.name = p.1.col ∧ cell = p.2 ∧ (p.2 = none ∨ p.1.ty = c.ty) := by
   induction fs with
   | nil =>
     intro db cells h i cell hi
@@ -2040,16 +2231,16 @@ theorem svOrdered_cells (forbid : Bool) (fs : List (Field × Val)) : ∀ (db : L
             | zero =>
               simp only [List.getElem?_cons_zero, Option.some.injEq] at hi
               subst hi
-              exact ⟨c, (f, v), rfl, List.mem_cons_self .., hn, serVal_some hs⟩
+              exact ⟨c, (f, v), rfl, List.mem_cons_self .., hn, serVal_some hs, (serVal_isSome_iff f v c.ty).mp ⟨_, hs⟩⟩
             | succ i =>
               simp only [List.getElem?_cons_succ] at hi
-              obtain ⟨c', q, h1, h2, h3, h4⟩ := ih cs cells' hr i cell hi
-              exact ⟨c', q, by simpa using h1, List.mem_cons_of_mem _ h2, h3, h4⟩
+              obtain ⟨c', q, h1, h2, h3, h4, h5⟩ := ih cs cells' hr i cell hi
+              exact ⟨c', q, by simpa using h1, List.mem_cons_of_mem _ h2, h3, h4, h5⟩
       · have hb : (c.name == f.col) = false := by simpa using hn
         simp only [hb, Bool.false_eq_true, if_false] at h
         split at h
-        · obtain ⟨c', q, h1, h2, h3, h4⟩ := ih (c :: cs) cells h i cell hi
-          exact ⟨c', q, h1, List.mem_cons_of_mem _ h2, h3, h4⟩
+        · obtain ⟨c', q, h1, h2, h3, h4, h5⟩ := ih (c :: cs) cells h i cell hi
+          exact ⟨c', q, h1, List.mem_cons_of_mem _ h2, h3, h4, h5⟩
         · cases h
 
 /-- `ordered_accepts_exactly` for the `DeserializeValue` type check walk (names checked; `fs` = the
@@ -3133,6 +3324,184 @@ theorem tcValueByName_duplicate_rejected (d : Desc) (db : List Col) (hv : ValidN
           · simp only [List.map_cons, List.nodup_cons] at hnd; exact hnd.2
           · exact hnd
   exact key db i j hij hi hj hnd
+
+/-! ### tie to the macro SOURCES (`Generated/DeriveC16.lean`, re-extracted from `scylla-macros/src` on every run)
+
+`G.*` are lists copied from the Rust text by `tools/extract_derive_c16.py`: the attribute names each derive accepts,
+its `is_required` rule, and — per code generator — the error variants and panicking macros it plants, in source
+order.  The theorems below prove the interpreter against them: a macro edit that adds / drops an attribute or an
+error emission breaks an obligation here. -/
+
+section SourceTie
+open ScyllaVerif.Generated
+
+/-- every attribute the four derives accept is represented in the descriptor (`Field` / `Desc` / `RField.flat`) -/
+theorem source_attrs_modelled :
+    (∀ a ∈ DeriveC16.svFieldAttrs ++ DeriveC16.srFieldAttrs ++ DeriveC16.dvFieldAttrs ++ DeriveC16.drFieldAttrs,
+      a ∈ ["rename", "skip", "allow_missing", "default_when_null", "flatten"]) ∧
+    (∀ a ∈ DeriveC16.svStructAttrs ++ DeriveC16.srStructAttrs ++ DeriveC16.dvStructAttrs ++ DeriveC16.drStructAttrs,
+      a ∈ ["crate", "flavor", "skip_name_checks", "forbid_excess_udt_fields"]) := by
+  constructor <;> simp [DeriveC16.svFieldAttrs, DeriveC16.srFieldAttrs, DeriveC16.dvFieldAttrs, DeriveC16.drFieldAttrs,
+    DeriveC16.svStructAttrs, DeriveC16.srStructAttrs, DeriveC16.dvStructAttrs, DeriveC16.drStructAttrs]
+
+/-- which derive has which attribute — the facts the row theorems' hypotheses rest on: rows have no
+`allow_missing` (`RowFields`) and no `forbid_excess_udt_fields`; `flatten` exists for `SerializeRow` only (so
+there is nothing to distribute on the deserialization side); both UDT derives share one attribute set -/
+theorem source_attr_matrix :
+    "allow_missing" ∉ DeriveC16.srFieldAttrs ∧ "allow_missing" ∉ DeriveC16.drFieldAttrs ∧
+    "allow_missing" ∈ DeriveC16.svFieldAttrs ∧ "allow_missing" ∈ DeriveC16.dvFieldAttrs ∧
+    "flatten" ∈ DeriveC16.srFieldAttrs ∧ "flatten" ∉ DeriveC16.svFieldAttrs ∧
+    "flatten" ∉ DeriveC16.dvFieldAttrs ∧ "flatten" ∉ DeriveC16.drFieldAttrs ∧
+    "forbid_excess_udt_fields" ∈ DeriveC16.svStructAttrs ∧ "forbid_excess_udt_fields" ∈ DeriveC16.dvStructAttrs ∧
+    "forbid_excess_udt_fields" ∉ DeriveC16.srStructAttrs ∧ "forbid_excess_udt_fields" ∉ DeriveC16.drStructAttrs ∧
+    (∀ a, a ∈ DeriveC16.svFieldAttrs ↔ a ∈ DeriveC16.dvFieldAttrs) ∧
+    (∀ a, a ∈ DeriveC16.drFieldAttrs → a ∈ DeriveC16.srFieldAttrs) := by
+  simp [DeriveC16.svFieldAttrs, DeriveC16.srFieldAttrs, DeriveC16.dvFieldAttrs, DeriveC16.drFieldAttrs,
+    DeriveC16.svStructAttrs, DeriveC16.srStructAttrs, DeriveC16.dvStructAttrs, DeriveC16.drStructAttrs]
+  intro a; constructor <;> (intro h; rcases h with h | h | h | h <;> simp [h])
+
+/-- the `is_required` rules of the sources are the ones the interpreter uses: `Field.required` (`!skip &&
+!allow_missing`) for both UDT derives, `!skip` (`rowRequiredCount`) for `DeserializeRow` -/
+theorem source_required_rules :
+    DeriveC16.svRequiredRule = "notSkipNotAllowMissing" ∧ DeriveC16.dvRequiredRule = "notSkipNotAllowMissing" ∧
+    DeriveC16.drRequiredRule = "notSkip" ∧
+    (∀ f : Field, f.required = (!f.skip && !f.allowMissing)) ∧
+    (∀ fields : List Field, rowRequiredCount fields = (fields.filter (fun f => !f.skip)).length) :=
+  ⟨rfl, rfl, rfl, fun _ => rfl, fun _ => rfl⟩
+
+/-- every error any interpreter can return — for ALL descriptors and inputs — is a variant its generator in the
+macro sources emits (`RawColumnDeserializationFailed` comes from `ColumnIterator`, outside the macros) -/
+theorem errors_in_source :
+    (∀ d fvs db x, serValueByName d fvs db = .error x → errVariant x ∈ DeriveC16.svByNameEmits) ∧
+    (∀ sn forbid fs db x, svOrdered sn forbid fs db = .error x → errVariant x ∈ DeriveC16.svOrderedEmits) ∧
+    (∀ fvs db x, serRowByName fvs db = .error x →
+      errVariant x ∈ DeriveC16.srByNameEmits ++ DeriveC16.srByNameRuntimeEmits ++ DeriveC16.srSerializeColumnEmits) ∧
+    (∀ sn fs db x, srOrdered sn fs db = .error x →
+      errVariant x ∈ DeriveC16.srOrderedEmits ++ DeriveC16.srOrderedRuntimeEmits ++ DeriveC16.srSerializeColumnEmits) ∧
+    (∀ d db x, tcValueByName d db = .error x → errVariant x ∈ DeriveC16.dvTcByNameEmits) ∧
+    (∀ d db cells x, deValueByName d db cells = .error x → errVariant x ∈ DeriveC16.dvDeByNameEmits) ∧
+    (∀ d db x, tcValueOrdered d db = .error x → errVariant x ∈ DeriveC16.dvTcOrderedEmits) ∧
+    (∀ d db cells x, deValueOrdered d db cells = .error x → errVariant x ∈ DeriveC16.dvDeOrderedEmits) ∧
+    (∀ d db x, tcRowByName d db = .error x → errVariant x ∈ DeriveC16.drTcByNameEmits) ∧
+    (∀ d db cells x, deRowByName d db cells = .error x →
+      errVariant x ∈ DeriveC16.drDeByNameEmits ++ ["RawColumnDeserializationFailed"]) ∧
+    (∀ d db x, tcRowOrdered d db = .error x → errVariant x ∈ DeriveC16.drTcOrderedEmits) ∧
+    (∀ d db cells x, deRowOrdered d db cells = .error x →
+      errVariant x ∈ DeriveC16.drDeOrderedEmits ++ ["RawColumnDeserializationFailed"]) := by
+  refine ⟨?_, ?_, ?_, ?_, ?_, ?_, ?_, ?_, ?_, ?_, ?_, ?_⟩
+  · intro d fvs db x h
+    have := serValueByName_errs d fvs db x h
+    simp only [List.mem_cons, List.not_mem_nil, or_false] at this
+    rcases this with rfl | rfl | rfl <;> simp [errVariant, DeriveC16.svByNameEmits]
+  · intro sn forbid fs db x h
+    have := svOrdered_errs sn forbid fs db x h
+    simp only [List.mem_cons, List.not_mem_nil, or_false] at this
+    rcases this with rfl | rfl | rfl | rfl <;> simp [errVariant, DeriveC16.svOrderedEmits]
+  · intro fvs db x h
+    have := serRowByName_errs fvs db x h
+    simp only [List.mem_cons, List.not_mem_nil, or_false] at this
+    rcases this with rfl | rfl | rfl <;>
+      simp [errVariant, DeriveC16.srByNameEmits, DeriveC16.srByNameRuntimeEmits, DeriveC16.srSerializeColumnEmits]
+  · intro sn fs db x h
+    have := srOrdered_errs sn fs db x h
+    simp only [List.mem_cons, List.not_mem_nil, or_false] at this
+    rcases this with rfl | rfl | rfl | rfl <;>
+      simp [errVariant, DeriveC16.srOrderedEmits, DeriveC16.srOrderedRuntimeEmits, DeriveC16.srSerializeColumnEmits]
+  · intro d db x h
+    have := tcValueByName_errs d db x h
+    simp only [List.mem_cons, List.not_mem_nil, or_false] at this
+    rcases this with rfl | rfl | rfl | rfl <;> simp [errVariant, DeriveC16.dvTcByNameEmits]
+  · intro d db cells x h
+    have := deValueByName_errs d db cells x h
+    simp only [List.mem_cons, List.not_mem_nil, or_false] at this
+    rcases this with rfl | rfl <;> simp [errVariant, DeriveC16.dvDeByNameEmits]
+  · intro d db x h
+    have := tcValueOrdered_errs d db x h
+    simp only [List.mem_cons, List.not_mem_nil, or_false] at this
+    rcases this with rfl | rfl | rfl | rfl <;> simp [errVariant, DeriveC16.dvTcOrderedEmits]
+  · intro d db cells x h
+    have := dvDeOrd_errs _ _ _ x h
+    simp only [List.mem_cons, List.not_mem_nil, or_false] at this
+    rcases this with rfl | rfl <;> simp [errVariant, DeriveC16.dvDeOrderedEmits]
+  · intro d db x h
+    have := tcRowByName_errs d db x h
+    simp only [List.mem_cons, List.not_mem_nil, or_false] at this
+    rcases this with rfl | rfl | rfl | rfl <;> simp [errVariant, DeriveC16.drTcByNameEmits]
+  · intro d db cells x h
+    have := deRowByName_errs d db cells x h
+    simp only [List.mem_cons, List.not_mem_nil, or_false] at this
+    rcases this with rfl | rfl | rfl <;> simp [errVariant, DeriveC16.drDeByNameEmits]
+  · intro d db x h
+    have := tcRowOrdered_errs d db x h
+    simp only [List.mem_cons, List.not_mem_nil, or_false] at this
+    rcases this with rfl | rfl | rfl <;> simp [errVariant, DeriveC16.drTcOrderedEmits]
+  · intro d db cells x h
+    have := drDeOrd_errs _ _ _ x h
+    simp only [List.mem_cons, List.not_mem_nil, or_false] at this
+    rcases this with rfl | rfl | rfl <;> simp [errVariant, DeriveC16.drDeOrderedEmits]
+
+/-- conversely, every variant a generator emits is one the corresponding interpreter knows, and only
+the `deserialize` generators plant panicking macros — the ones `deserValueByName_no_panic`, `dvDeOrd_spec`,
+`deserRowByName_no_panic`, `deRowOrdered_spec` prove unreachable after the type check -/
+theorem source_emissions_modelled :
+    (∀ s ∈ DeriveC16.svByNameEmits,
+      s ∈ [Err.svNotUdt, Err.svFieldSerFailed, Err.svNoSuchField, Err.svValueMissing].map errVariant) ∧
+    (∀ s ∈ DeriveC16.svOrderedEmits,
+      s ∈ [Err.svNotUdt, Err.svNoSuchField, Err.svValueMissing, Err.svFieldSerFailed,
+        Err.svFieldNameMismatch].map errVariant) ∧
+    (∀ s ∈ DeriveC16.dvExtractFieldsEmits, s ∈ [Err.dvNotUdt].map errVariant) ∧
+    (∀ s ∈ DeriveC16.srByNameEmits ++ DeriveC16.srByNameRuntimeEmits ++ DeriveC16.srSerializeColumnEmits,
+      s ∈ [Err.srColumnSerFailed, Err.srValueMissingForColumn, Err.srNoColumnWithName].map errVariant) ∧
+    (∀ s ∈ DeriveC16.srOrderedEmits ++ DeriveC16.srOrderedRuntimeEmits ++ DeriveC16.srSerializeColumnEmits,
+      s ∈ [Err.srValueMissingForColumn, Err.srNoColumnWithName, Err.srColumnNameMismatch,
+        Err.srColumnSerFailed].map errVariant) ∧
+    (∀ s ∈ DeriveC16.dvTcByNameEmits,
+      s ∈ [Err.dvDuplicatedField, Err.dvFieldTypeCheckFailed, Err.dvExcessField, Err.dvValuesMissing].map errVariant) ∧
+    (∀ s ∈ DeriveC16.dvTcOrderedEmits,
+      s ∈ [Err.dvTooFewFields, Err.dvFieldNameMismatch, Err.dvFieldTypeCheckFailed, Err.dvExcessField].map errVariant) ∧
+    (∀ s ∈ DeriveC16.dvDeByNameEmits ++ DeriveC16.dvDeOrderedEmits,
+      s ∈ [Err.panic, Err.dvFieldDeserFailed].map errVariant) ∧
+    (∀ s ∈ DeriveC16.drTcByNameEmits,
+      s ∈ [Err.drDuplicatedColumn, Err.drColumnTypeCheckFailed, Err.drUnknownName, Err.drValuesMissing].map errVariant) ∧
+    (∀ s ∈ DeriveC16.drTcOrderedEmits,
+      s ∈ [Err.drWrongColumnCount, Err.drColumnNameMismatch, Err.drColumnTypeCheckFailed].map errVariant) ∧
+    (∀ s ∈ DeriveC16.drDeByNameEmits ++ DeriveC16.drDeOrderedEmits,
+      s ∈ [Err.panic, Err.drColumnDeserFailed].map errVariant) ∧
+    "PANIC" ∉ DeriveC16.svByNameEmits ++ DeriveC16.svOrderedEmits ++ DeriveC16.srByNameEmits ++
+      DeriveC16.srOrderedEmits ++ DeriveC16.srByNameRuntimeEmits ++ DeriveC16.srSerializeColumnEmits ++
+      DeriveC16.srOrderedRuntimeEmits ++ DeriveC16.dvTcByNameEmits ++ DeriveC16.dvTcOrderedEmits ++
+      DeriveC16.drTcByNameEmits ++ DeriveC16.drTcOrderedEmits := by
+  simp [errVariant, DeriveC16.svByNameEmits, DeriveC16.svOrderedEmits, DeriveC16.srByNameEmits,
+    DeriveC16.srOrderedEmits, DeriveC16.srByNameRuntimeEmits, DeriveC16.srSerializeColumnEmits,
+    DeriveC16.srOrderedRuntimeEmits, DeriveC16.dvTcByNameEmits, DeriveC16.dvTcOrderedEmits,
+    DeriveC16.dvDeByNameEmits, DeriveC16.dvDeOrderedEmits, DeriveC16.drTcByNameEmits, DeriveC16.drTcOrderedEmits,
+    DeriveC16.drDeByNameEmits, DeriveC16.drDeOrderedEmits, DeriveC16.dvExtractFieldsEmits]
+
+/-- `NotUdt` and whole-value null: handing the generated code a CQL type that is not a UDT is `NotUdt` for
+serialization and for the type check, in both flavors, whatever the struct and the values; a null UDT value is
+rejected with `ExpectedNonNull` once the type check has passed (and with the type check's error otherwise) -/
+theorem not_udt_and_null (d : Desc) (fvs : List (Field × Val)) (db : List Col) (v : Option (List Cell)) :
+    serValueAt d fvs none = .error .svNotUdt ∧ deserValueAt d none v = .error .dvNotUdt ∧
+    errVariant .svNotUdt ∈ DeriveC16.svByNameEmits ∧ errVariant .svNotUdt ∈ DeriveC16.svOrderedEmits ∧
+    errVariant .dvNotUdt ∈ DeriveC16.dvExtractFieldsEmits ∧
+    (∃ x, deserValueAt d (some db) none = .error x) ∧
+    (tcValueByName d db = .ok () → d.flavor = .byName → deserValueAt d (some db) none = .error .dvNullUdt) ∧
+    (tcValueOrdered d db = .ok () → d.flavor = .ordered → deserValueAt d (some db) none = .error .dvNullUdt) := by
+  refine ⟨rfl, rfl, by simp [errVariant, DeriveC16.svByNameEmits], by simp [errVariant, DeriveC16.svOrderedEmits],
+    by simp [errVariant, DeriveC16.dvExtractFieldsEmits], ?_, ?_, ?_⟩
+  · unfold deserValueAt deserValueOpt
+    simp only []
+    cases d.flavor with
+    | byName => simp only []; cases tcValueByName d db with
+      | error x => exact ⟨x, rfl⟩
+      | ok u => exact ⟨_, rfl⟩
+    | ordered => simp only []; cases tcValueOrdered d db with
+      | error x => exact ⟨x, rfl⟩
+      | ok u => exact ⟨_, rfl⟩
+  · intro h hf; unfold deserValueAt deserValueOpt; simp only [hf, h]
+  · intro h hf; unfold deserValueAt deserValueOpt; simp only [hf, h]
+
+end SourceTie
 
 /-! ### non-vacuity: concrete structs, orders and values -/
 
